@@ -14,6 +14,7 @@ import ast
 from ..cfg import CFG
 from ..core import AnalysisError, Repo, Report, call_name, calls_in, kwarg, norm, parents_map, walk_local
 from ..sites import guard_chain
+from .util import canon, cguards
 
 
 def run(repo: Repo, rep: Report, tier: str) -> None:
@@ -30,22 +31,18 @@ def run(repo: Repo, rep: Report, tier: str) -> None:
     callers = [f for f in repo.all_funcs() if f.qual != hw.qual and calls_in(f.node, "_optimize_to_arithmetic_feedback")]
     rep.check(not callers, "C04-R1", "the optimisation has a single call site", str([f.short for f in callers]), hw.loc())
     for c in cs:
-        st = c
-        while not isinstance(st, ast.stmt):
-            st = pm[st]
-        gs = [norm(t) for t, pol in guard_chain(hw, st, pm) if pol]
-        ok = any("is_always_write" in g and "_can_use_arithmetic_feedback" in g and " and " in g for g in gs)
+        gs = [t for t, pol in cguards(hw, c) if pol]
+        ok = any("self._is_always_write(op)" in g and "self._can_use_arithmetic_feedback(op, " in g and " and " in g for g in gs)
         rep.check(ok, "C04-R1", "feedback rewrite only for always-write cells that depend on their own read", "; ".join(gs), hw.loc(c))
-    iaw = [n for n in walk_local(hw.node) if isinstance(n, ast.Assign) and norm(n.targets[0]) == "is_always_write"]
-    rep.check(bool(iaw) and norm(iaw[0].value) == "self._is_always_write(op)", "C04-R1", "always-write is decided by _is_always_write(op)", norm(iaw[0]) if iaw else "", hw.loc())
     can = mb.methods["_can_use_arithmetic_feedback"]
-    ok_arith = any(isinstance(n, ast.If) and norm(n.test) == "not isinstance(arith_node, IRArith)" and isinstance(n.body[-1], ast.Return) and norm(n.body[-1].value) == "False" for n in walk_local(can.node))
+    ccan = canon(can)
+    ok_arith = any(isinstance(n, ast.If) and ccan.text(n.test) == "not isinstance(self._ir_nodes.get(op.data_signal.source_id), IRArith)" and isinstance(n.body[-1], ast.Return) and norm(n.body[-1].value) == "False" for n in walk_local(can.node))
     dep = [c for c in calls_in(can.node, "_operation_depends_on_memory")]
-    ok_dep = bool(dep) and norm(dep[0].args[1]) == "op.memory_id"
-    rep.check(ok_arith and ok_dep, "C04-R1", "eligibility requires an arithmetic data node depending on this memory", f"IRArith check: {ok_arith}; depends_on(..., op.memory_id): {ok_dep}", can.loc())
+    ok_dep = bool(dep) and ccan.text(dep[0].args[0]) == "op.data_signal.source_id" and norm(dep[0].args[1]) == "op.memory_id"
+    rep.check(ok_arith and ok_dep, "C04-R1", "eligibility requires an arithmetic data node depending on this memory", f"IRArith check: {ok_arith}; depends_on(data node, op.memory_id): {ok_dep}", can.loc())
     odm = mb.methods["_operation_depends_on_memory"]
-    ok = any(isinstance(n, ast.If) and norm(n.test) == "source_memory == memory_id" for n in walk_local(odm.node))
-    rep.check(ok, "C04-R1", "dependence means: reaches a read whose memory id equals this cell's", "source_memory == memory_id" if ok else "comparison missing", odm.loc())
+    ok = any(isinstance(n, ast.If) and canon(odm).text(n.test) == "self._read_sources.get(op_id) == memory_id" for n in walk_local(odm.node))
+    rep.check(ok, "C04-R1", "dependence means: reaches a read whose memory id equals this cell's", "_read_sources.get(op_id) == memory_id" if ok else "comparison missing", odm.loc())
 
     # ---------------- R2 ---------------------------------------------------------------
     rep.rule("C04-R2", "on every path of the optimisation that records module.optimization, both *_gate_unused flags are set, the memory's source is re-pointed at the arithmetic node and "
@@ -63,12 +60,15 @@ def run(repo: Repo, rep: Report, tier: str) -> None:
         rep.check(bool(hits) and (pre or not leak), "C04-R2", what, f"{len(hits)} site(s), on every path with the optimisation flag" if hits and (pre or not leak) else "missing on some path after the optimisation is recorded", opt.loc(hits[0]) if hits else opt.loc(mark[0]))
     must(lambda s: isinstance(s, ast.Assign) and norm(s) == "module.write_gate_unused = True", "write gate is flagged unused")
     must(lambda s: isinstance(s, ast.Assign) and norm(s) == "module.hold_gate_unused = True", "hold gate is flagged unused")
-    must(lambda s: isinstance(s, ast.Expr) and norm(s.value) == "signal_graph.set_source(op.memory_id, arith_node_id)", "the cell's source becomes the arithmetic node")
-    must(lambda s: isinstance(s, ast.For) and "_read_sources" in norm(s.iter) and any(isinstance(x, ast.Call) and call_name(x) == "set_source" and norm(x.args[1]) == "arith_node_id" for x in ast.walk(s))
+    copt = canon(opt)
+    ARITH = "op.data_signal.source_id"
+    must(lambda s: isinstance(s, ast.Expr) and isinstance(s.value, ast.Call) and call_name(s.value) == "set_source" and norm(s.value.args[0]) == "op.memory_id" and ARITH in copt.text(s.value.args[1]), "the cell's source becomes the arithmetic node")
+    must(lambda s: isinstance(s, ast.For) and "_read_sources" in norm(s.iter) and any(isinstance(x, ast.Call) and call_name(x) == "set_source" and ARITH in copt.text(x.args[1]) for x in ast.walk(s))
          and any(isinstance(x, ast.Compare) and "op.memory_id" in norm(x) for x in ast.walk(s)), "every recorded read of this cell is re-pointed at the arithmetic node")
-    must(lambda s: isinstance(s, ast.Assign) and norm(s) == "module.output_node_id = arith_node_id", "later reads are served by the arithmetic node (output_node_id)")
+    must(lambda s: isinstance(s, ast.Assign) and norm(s.targets[0]) == "module.output_node_id" and ARITH in copt.text(s.value), "later reads are served by the arithmetic node (output_node_id)")
     hr = mb.methods["handle_read"]
-    ok = any(isinstance(n, ast.If) and "arithmetic_feedback" in norm(n.test) and any(isinstance(x, ast.Call) and call_name(x) == "set_source" and "module.output_node_id" in norm(x) for x in ast.walk(n)) for n in walk_local(hr.node))
+    chr_ = canon(hr)
+    ok = any(isinstance(n, ast.If) and "arithmetic_feedback" in norm(n.test) and any(isinstance(x, ast.Call) and call_name(x) == "set_source" and chr_.text(x.args[1]).endswith(".output_node_id") and "self._modules" in chr_.text(x.args[1]) for x in ast.walk(n)) for n in walk_local(hr.node))
     rep.check(ok, "C04-R2", "reads lowered after the write use module.output_node_id", "handle_read branch for arithmetic_feedback" if ok else "missing", hr.loc())
     rec = [n for n in walk_local(hr.node) if isinstance(n, ast.Assign) and norm(n.targets[0]) == "self._read_sources[op.node_id]"]
     rep.check(bool(rec) and norm(rec[0].value) == "op.memory_id", "C04-R2", "every read is recorded under its memory id before any early return", norm(rec[0]) if rec else "", hr.loc())
@@ -81,25 +81,33 @@ def run(repo: Repo, rep: Report, tier: str) -> None:
              "for the feedback signal; chain case: an edge from the last node to the first consumer is registered")
     w_flag = [n for n in walk_local(opt.node) if isinstance(n, ast.Assign) and "['has_self_feedback']" in norm(n.targets[0])]
     w_sig = [n for n in walk_local(opt.node) if isinstance(n, ast.Assign) and "['feedback_signal']" in norm(n.targets[0])]
-    pmo = parents_map(opt.node)
-    ok = bool(w_flag) and bool(w_sig) and any("is_single_operation" in norm(t) and pol for t, pol in guard_chain(opt, w_flag[0], pmo))
-    rep.check(ok, "C04-R3", "single-combinator loops are flagged for a self-feedback wire", "; ".join(norm(n) for n in w_flag + w_sig), opt.loc())
+    ok = bool(w_flag) and bool(w_sig) and any("self._find_first_memory_consumer(op.memory_id)" in t and pol for t, pol in cguards(opt, w_flag[0]))
+    rep.check(ok, "C04-R3", "single-combinator loops are flagged for a self-feedback wire", "; ".join(norm(n.targets[0])[-40:] for n in w_flag + w_sig), opt.loc())
     asf = repo.func("ConnectionPlanner._add_self_feedback_connections")
+    casf = canon(asf)
     wc = calls_in(asf.node, "WireConnection")
     col = kwarg(wc[0], "wire_color").value if wc and isinstance(kwarg(wc[0], "wire_color"), ast.Constant) else None
-    ok = bool(wc) and norm(kwarg(wc[0], "source_entity_id")) == norm(kwarg(wc[0], "sink_entity_id")) == "entity_id" and norm(kwarg(wc[0], "source_side")) == "'output'" and norm(kwarg(wc[0], "sink_side")) == "'input'" \
-        and norm(kwarg(wc[0], "signal_name")) == "feedback_signal" and any("has_self_feedback" in norm(n) for n in walk_local(asf.node))
+    ok = bool(wc) and casf.text(kwarg(wc[0], "source_entity_id")) == casf.text(kwarg(wc[0], "sink_entity_id")) and "entity_placements.items()" in casf.text(kwarg(wc[0], "source_entity_id")) \
+        and norm(kwarg(wc[0], "source_side")) == "'output'" and norm(kwarg(wc[0], "sink_side")) == "'input'" \
+        and casf.text(kwarg(wc[0], "signal_name")).endswith(".properties.get('feedback_signal')") and any("has_self_feedback" in norm(n) for n in walk_local(asf.node))
     rep.check(ok, "C04-R3", "flagged combinators get an output->input self-wire carrying the feedback signal", norm(wc[0])[:120] if wc else "", asf.loc())
     dl = repo.func("LayoutPlanner._determine_locked_wire_colors")
-    lk = [n for n in walk_local(dl.node) if isinstance(n, ast.Assign) and norm(n.targets[0]) == "locked[entity_id, feedback_signal]"]
-    rep.check(bool(lk) and isinstance(lk[0].value, ast.Constant) and lk[0].value.value == col, "C04-R3", "the feedback signal is locked to the colour of the self-wire", f"lock {norm(lk[0].value) if lk else None}, wire {col}", dl.loc())
+    cdl = canon(dl)
+    lk = [n for n in walk_local(dl.node) if isinstance(n, ast.Assign) and isinstance(n.targets[0], ast.Subscript) and isinstance(n.value, ast.Constant) and cdl.text(n.targets[0].slice).endswith(".properties.get('feedback_signal'))")]
+    rep.check(bool(lk) and lk[0].value.value == col, "C04-R3", "the feedback signal is locked to the colour of the self-wire", f"lock {norm(lk[0].value) if lk else None}, wire {col}", dl.loc())
     pc = repo.func("ConnectionPlanner.plan_connections")
+    cpc = canon(pc)
     order = [call_name(c) for c in calls_in(pc.node) if call_name(c) in ("_add_self_feedback_connections", "clear")]
-    pres = any(isinstance(n, ast.Assign) and norm(n.targets[0]) == "preserved_connections" for n in walk_local(pc.node)) and any("extend(preserved_connections)" in norm(n) for n in walk_local(pc.node))
-    rep.check(pres and order[:1] == ["_add_self_feedback_connections"], "C04-R3", "self-feedback wires are added before the plan's wires are rebuilt and are preserved", f"order {order}, preserved: {pres}", pc.loc())
-    chain = [n for n in walk_local(opt.node) if isinstance(n, ast.If) and norm(n.test) == "first_consumer_id and first_consumer_id != arith_node_id"]
-    ok = bool(chain) and any(isinstance(x, ast.Call) and call_name(x) == "add_sink" and [norm(a) for a in x.args] == ["arith_node_id", "first_consumer_id"] for s in chain[0].body for x in ast.walk(s))
-    rep.check(ok, "C04-R3", "multi-node loops register the edge last node -> first consumer", "add_sink(arith_node_id, first_consumer_id)" if ok else "missing", opt.loc())
+    ext = [c for c in calls_in(pc.node, "extend") if "list(self.layout_plan.wire_connections)" in cpc.text(c.args[0])]
+    rep.check(bool(ext) and order[:1] == ["_add_self_feedback_connections"], "C04-R3", "self-feedback wires are added before the plan's wires are rebuilt and are preserved", f"order {order}, preserved: {bool(ext)}", pc.loc())
+    chain = [n for n in walk_local(opt.node) if isinstance(n, ast.If) and any(isinstance(x, ast.Call) and call_name(x) == "add_sink" for s_ in n.body for x in ast.walk(s_))]
+    ok = False
+    for n in chain:
+        t = copt.text(n.test)
+        for x in [x for s_ in n.body for x in ast.walk(s_) if isinstance(x, ast.Call) and call_name(x) == "add_sink"]:
+            if ARITH in copt.text(x.args[0]) and "self._find_first_memory_consumer(op.memory_id)" in copt.text(x.args[1]) and "!=" in t:
+                ok = True
+    rep.check(ok, "C04-R3", "multi-node loops register the edge last node -> first consumer", "add_sink(arithmetic node, first consumer)" if ok else "missing", opt.loc())
 
     # ---------------- R4 ---------------------------------------------------------------
     rep.rule("C04-R4", "_operation_depends_on_memory and _find_first_memory_consumer inspect both IRArith.left and IRArith.right")
@@ -131,17 +139,19 @@ def run(repo: Repo, rep: Report, tier: str) -> None:
     # ---------------- R5 ---------------------------------------------------------------
     rep.rule("C04-R5", "an edge whose reverse exists in the same signal group (in particular a self-loop) is classified bidirectional and routed directly; the classification has no extra exclusions")
     fb = repo.func("ConnectionPlanner._find_bidirectional_pairs")
-    pmf = parents_map(fb.node)
-    adds = [c for c in calls_in(fb.node, "add") if norm(c.func) == "pairs.add"]
+    cfb = canon(fb)
+    adds = [c for c in calls_in(fb.node, "add") if isinstance(c.func, ast.Attribute) and isinstance(c.func.value, ast.Name) and c.args and isinstance(c.args[0], (ast.Tuple, ast.Name))]
     rep.floor("C04-R5", "pair registrations", len(adds), 2)
     for c in adds[:1]:
-        st = c
-        while not isinstance(st, ast.stmt):
-            st = pmf[st]
-        gs = [(norm(t), pol) for t, pol in guard_chain(fb, st, pmf)]
-        allowed = [g for g in gs if (g[0] == "reverse in edge_set" and g[1]) or (g[0] == "edge.source_entity_id is None" and not g[1])]
-        rep.check(len(allowed) == len(gs) and any(g[0] == "reverse in edge_set" for g in gs), "C04-R5", "bidirectional classification depends only on the reverse edge being present",
-                  "; ".join(("" if p else "not ") + g for g, p in gs), fb.loc(c))
+        gs = cguards(fb, c)
+        def allowed(g: str, pol: bool) -> bool:
+            if pol and g.startswith("(ELEM(edges).sink_entity_id, ELEM(edges).source_entity_id) in "):
+                return True
+            return (not pol) and g == "ELEM(edges).source_entity_id is None"
+        ok = all(allowed(g, p) for g, p in gs) and any(p and " in " in g for g, p in gs)
+        rep.check(ok, "C04-R5", "bidirectional classification depends only on the reverse edge being present",
+                  "; ".join(("" if p else "not ") + g[:90] for g, p in gs), fb.loc(c))
     pop = repo.func("ConnectionPlanner._populate_wire_connections")
-    ok = any(isinstance(n, ast.For) and norm(n.iter) == "sorted(bidir_sinks)" and any(call_name(x) == "_route_edge_directly" for x in calls_in(n)) for n in walk_local(pop.node))
-    rep.check(ok, "C04-R5", "bidirectional sinks are always routed directly", "for sink in sorted(bidir_sinks): _route_edge_directly" if ok else "missing", pop.loc())
+    direct_loops = [n for n in walk_local(pop.node) if isinstance(n, ast.For) and isinstance(n.iter, ast.Call) and call_name(n.iter) == "sorted" and any(call_name(x) == "_route_edge_directly" for x in calls_in(n))]
+    ok = any(not any("mst" in g.lower() for g, _ in cguards(pop, n)) for n in direct_loops)
+    rep.check(ok, "C04-R5", "bidirectional sinks are always routed directly", "an unconditional loop routes them with _route_edge_directly" if ok else "missing", pop.loc())
